@@ -9,5 +9,6 @@ INVARIANT LengthBeyondBlock
 INVARIANT ListWholeBlock
 INVARIANT InnerLieIgnoresWhatFollows
 INVARIANT LongLists
+INVARIANT OrderIndependence
 INVARIANT EmitCase
 CHECK_DEADLOCK FALSE
